@@ -72,6 +72,11 @@ def cases(tier, seed):
         if spec.get('layout') == 'csr' and not spec.get('gmd') and spec['prod'] not in ('B-full', 'A2'):
             for w in CONVERT_WRITERS:
                 out.append(dict(spec, writer=w, compress=True))
+    # SF: the first id has fewer categories than a later one - the writer may refuse (it does), but a file it
+    # writes must hold the table's metadata
+    for ax in ('obs_md', 'samp_md'):
+        out.append(dict({'prod': 'SF', 'shape': [2, 3], 'mask': 0b110111, 'rot': 0, 'layout': 'csr', 'header': 1,
+                         'writer': 'to_hdf5_core', 'compress': True}, **{ax: 'subsetfirst'}))
     # FS: a write with a caller-supplied per-category formatter, then an ordinary write in the same process
     for lay in ('csr', 'csc'):
         out.append({'prod': 'FS', 'shape': [2, 3], 'mask': 0b110111, 'rot': 0, 'layout': lay, 'obs_md': 'text',
@@ -246,6 +251,9 @@ def check(case, acc, tmp):
             try:
                 art = c01.write(t, case, gen, tmp, 'c04')
             except Exception as e:
+                if case['prod'] == 'SF' and isinstance(e, ValueError):
+                    acc.count('clause:uneven-categories-refused')
+                    return
                 bad('writer-raised:%s:%s' % (w, type(e).__name__),
                     '%s raised %s: %s' % (w, type(e).__name__, str(e)[:300]))
                 return
@@ -436,6 +444,33 @@ def history_conformance(t, m, report):
         if not one_write('second write of the same object after an in-place transform along %s: ' % ax):
             return
     report.count('clause:history-rewrite')
+    # ... and into the very same open file: refused (the names exist), or the file holds the table as it is now
+    src0 = None
+    fh = h5py.File('c04-hist2-%d-%d.h5' % (os.getpid(), id(t)), 'w', driver='core', backing_store=False)
+    try:
+        try:
+            t.to_hdf5(fh, 'verif', creation_date=c01.DATE)
+            t.transform(lambda v, i, md: v * 3 + 2, axis='sample', inplace=True)
+            src0 = c01.observe_source(t)
+        except Exception:
+            return
+        try:
+            t.to_hdf5(fh, 'verif', creation_date=c01.DATE)
+        except Exception:
+            report.count('clause:history-same-file-refused')
+            return
+        try:
+            dec = h5spec.decode(fh)
+        except Exception as e:
+            report('history:same-file:undecodable:' + type(e).__name__, 'second write into the same open file: %s' % e)
+            return
+    finally:
+        fh.close()
+    probs = list(dec['problems']) + list(h5spec.compare(dec, src0))
+    for clause, detail in probs[:3]:
+        report('history:same-file:' + clause, 'second write into the same open file after an in-place change: ' + detail)
+    if not probs:
+        report.count('clause:history-same-file-rewritten')
 
 
 def history_spec(depth):
